@@ -18,7 +18,7 @@ import re
 import shutil
 import tempfile
 
-from vlib.batch import Batch, short_hash, unjson
+from vlib.batch import Batch, unjson
 
 PROPERTY = 'C15'
 LEVEL = 'exploration'
@@ -50,7 +50,7 @@ REQUIRED = ['framing_length', 'framing_chunked', 'framing_close', 'framing_none_
             'both_decoders_compared', 'ref_selfcheck_vectors', 'sequence_len_ge_3', 'loopback_crosschecked']
 REQUIRED_OBLIGATIONS = ['WELL_FORMED', 'HTTPCLIENT_DECODES', 'DECODERS_AGREE', 'SELF_DELIMITING', 'NO_BODY', 'STATUS_EXACT',
                         'HEADERS_EXACT', 'BODY_EXACT', 'FRAMING_LEGAL', 'CLOSE_IFF_ANNOUNCED', 'CLOSE_WISH',
-                        'NOTHING_AFTER_CLOSE', 'KEEPALIVE_NEXT', 'ONE_RESPONSE', 'LOOPBACK_AGREES']
+                        'NOTHING_AFTER_CLOSE', 'KEEPALIVE_NEXT', 'ONE_RESPONSE', 'RIGHT_CONNECTION', 'LOOPBACK_AGREES']
 WORKER_TIMEOUT = {'quick': 300, 'thorough': 1500}
 
 STATUSES = [200, 201, 204, 304, 404, 500]
@@ -358,15 +358,17 @@ class World:
                     settled = self._settle()
                     if not settled:
                         break
-            events = [(e[0], e[2] if e[0] == 'write' else None) for e in w.take() if e[1] is sock]
+            taken = w.take()
+            events = [(e[0], e[2] if e[0] == 'write' else None) for e in taken if e[1] is sock]
             o = {'idx': idx, 'conn': conn_no, 'fresh': fresh, 'events': events, 'unsettled': not settled,
+                 'elsewhere': sum(1 for e in taken if e[1] is not sock),
                  'exceptions': len(w.exceptions), 'stream_events': self.probe.streams - s0}
             obs.append(o)
             if not settled:
                 break
-            yield_keep = self.client_keeps_connection(r, o)
-            o['kept'] = yield_keep
-            if not yield_keep:
+            keeps = self.client_keeps_connection(r, o)
+            o['kept'] = keeps
+            if not keeps:
                 # what a socket server does once the connection is gone
                 w.fire(H['disconnect'](sock), 'web')
                 self._settle()
@@ -421,6 +423,11 @@ def judge_request(case, idx, r, o, marks):
           status_lines_written=sum(1 for d in writes if d.startswith(b'HTTP/1.')), ticks=MAX_TICKS, head=raw[:160])
         return fails, oks
     OK('ONE_RESPONSE')
+    if o['elsewhere']:
+        F('RIGHT_CONNECTION', note='write/close events addressed to a socket other than the one the request arrived on',
+          events=o['elsewhere'])
+    else:
+        OK('RIGHT_CONNECTION')
     own = echo_of(case, idx)
     if not o['fresh']:
         marks.add('keepalive_further_request')
